@@ -529,7 +529,28 @@ func frGen(maxConns int, directOnly bool) func(rt *rapid.T) frScenario {
 }
 
 // frContentOracle is C01/C03 at layer 3.
+func frDebugDump(fr *frResult) {
+	if os.Getenv("VERIF_DEBUG") == "" {
+		return
+	}
+	for idx, r := range fr.conns {
+		fmt.Printf("DEBUG conn %d: %+v s2cErr=%v c2sErr=%v\n", idx, *r, r.s2cErr, r.c2sErr)
+	}
+	for si, sh := range fr.sessions {
+		fmt.Printf("DEBUG   client session %d closed=%v terminal=%q\n", si, sh.IsClosed(), sh.TerminalMsg())
+	}
+	for _, l := range fr.cliLinks {
+		fmt.Printf("DEBUG   link %d c2s wire=%d consumed=%d s2c wire=%d consumed=%d Aclosed=%v Bclosed=%v\n", l.ID, len(l.Wire(vk.AtoB)), l.Consumed(vk.AtoB), len(l.Wire(vk.BtoA)), l.Consumed(vk.BtoA), l.A.CloseCalls, l.B.CloseCalls)
+	}
+	fmt.Printf("DEBUG   snapshot: %s\n", fr.snapshotNote)
+}
+
 func frContentOracle(res *frResult) (labels []string, nontrivial bool, err error) {
+	defer func() {
+		if err != nil {
+			frDebugDump(res)
+		}
+	}()
 	for idx, r := range res.conns {
 		cs := res.sc.Conns[idx]
 		if r.c2sErr != nil {
@@ -677,7 +698,7 @@ func c12ConnectGen(rt *rapid.T) c12Connect {
 		Transport: rapid.SampledFrom([]string{"direct", "direct", "cdn"}).Draw(rt, "transport"), ServerName: "www.bing.com"}}
 	n := rapid.IntRange(1, 6).Draw(rt, "nfail")
 	for i := 0; i < n; i++ {
-		sc.Fail = append(sc.Fail, rapid.SampledFrom([]string{"", "reset", "reset", "reset-after-hello", "eof", "reply-fails", "reply-fails", "reply-fails-late", "slow", "reply-delayed"}).Draw(rt, "fail"))
+		sc.Fail = append(sc.Fail, rapid.SampledFrom([]string{"", "reset", "reset", "reset-after-hello", "eof", "reply-fails", "reply-fails", "reply-fails-late", "slow", "reply-delayed", "reset-before-reply-read"}).Draw(rt, "fail"))
 	}
 	return sc
 }
@@ -754,6 +775,15 @@ func c12ConnectRun(t *testing.T, sigOnly bool) func(sc c12Connect) (vk.Result, e
 								l.ReleaseTicket(vk.BtoA, tk)
 							}
 						}()
+					case "reset-before-reply-read":
+						// the server's reply (and with it the server's view "this connection has joined") is still in flight when
+						// the connection is reset 50 ms later: the server tears the session down, the client retries
+						failed++
+						l.SetAuto(vk.BtoA, false)
+						go func() {
+							time.Sleep(50 * time.Millisecond)
+							l.Reset()
+						}()
 					case "reply-fails-late":
 						// the server's reply is held up (a full send queue) until the client's other, parallel connections
 						// have completed their handshakes; then the connection is reset and the reply write fails
@@ -808,7 +838,7 @@ func c12ConnectRun(t *testing.T, sigOnly bool) func(sc c12Connect) (vk.Result, e
 				// session that looks alive but does not carry data.
 				mayDie := false
 				for _, f := range sc.Fail {
-					if f == "reset-after-hello" || ((f == "reply-fails" || f == "reply-fails-late") && remote.NumConn >= 2) {
+					if f == "reset-after-hello" || f == "reset-before-reply-read" || ((f == "reply-fails" || f == "reply-fails-late") && remote.NumConn >= 2) {
 						mayDie = true
 					}
 				}
